@@ -44,6 +44,7 @@ var c14DevInv = [][2]string{
 	{"ClosureNoEnv", "RoundTrip"}, {"FuncOwnName", "RoundTrip"}, {"LossyFuncPrint", "RoundTrip"}, {"ExtUsage", "RoundTrip"},
 	{"QuoteMultiLine", "OneLinePerBinding"}, {"ScannerLimit", "RoundTrip"}, {"NamedFuncNoLimit", "SkippedNotTruncated"},
 	{"Unsorted", "Sorted"}, {"Truncate", "SkippedNotTruncated"}, {"RawStrings", "OneLinePerBinding"},
+	{"ScannerByLimit", "RoundTrip"},
 }
 
 func c14Cfg(dev []string, maxLine int, scopes []string, limits []int, emit bool, invs []string, trace bool) string {
@@ -83,15 +84,35 @@ type c14Case struct {
 	Lim     int               `json:"lim"`
 	EnvRaw  []json.RawMessage `json:"env"`
 	N       int               `json:"n"`
-	Lines   [][]int           `json:"lines"`
+	Lines   []c14Line         `json:"lines"`
 	LoadA   []json.RawMessage `json:"loadA"`
 	LoadW   []json.RawMessage `json:"loadW"`
-	ResaveA [][]int           `json:"resaveA"`
-	ResaveW [][]int           `json:"resaveW"`
+	ResaveA []c14Line         `json:"resaveA"`
+	ResaveW []c14Line         `json:"resaveW"`
 	MV      map[string]bool   `json:"mv"` // the model's own verdict under the code's rules
 
 	Env    []c14Bind `json:"-"`
 	Random bool      `json:"-"` // built by the harness from emitted values: no model prediction attached
+}
+
+// c14Line is one predicted line: JSON array of byte values, or {"r": [[byte, count], ..]} for long lines.
+type c14Line string
+
+func (l *c14Line) UnmarshalJSON(b []byte) error {
+	if len(b) > 0 && b[0] == '{' {
+		var v c14Val
+		if err := json.Unmarshal(b, &v); err != nil {
+			return err
+		}
+		*l = c14Line(v.bytes())
+		return nil
+	}
+	var xs []int
+	if err := json.Unmarshal(b, &xs); err != nil {
+		return err
+	}
+	*l = c14Line(bytesOf(xs))
+	return nil
 }
 
 func (cs *c14Case) key() string { return fmt.Sprintf("%s|%d", cs.ID, cs.Lim) }
@@ -649,28 +670,29 @@ func c14TLCVerdicts(c *Ctx, recs []c14TR, shards int) (map[string][]string, erro
 // ---------------------------------------------------------------------------------- attribution (feature predicates)
 
 const (
-	sigFloatInt   = "save-float-integral-reloads-as-int"
-	sigNegZero    = "save-float-negzero-reloads-as-int-zero"
-	sigMinInt     = "save-int-min-reloads-as-float"
-	sigEscape     = "save-string-escape-not-read-back"
-	sigClosure    = "save-closure-loses-capture"
-	sigAlias      = "save-named-function-under-other-name"
-	sigPrinter    = "save-func-print-not-reparsed-same"
-	sigExt        = "save-extension-value-not-loadable"
-	sigQuoteNL    = "save-quote-multiline"
-	sigScanner    = "autoload-line-over-64KiB"
-	sigNoLimit    = "save-named-function-ignores-max-len"
-	sigRebound    = "save-nonliteral-name-rebound"
-	sigUnexpl     = "c14-roundtrip-mismatch"
-	sigLost       = "c14-binding-lost"
-	sigBehaviour  = "c14-function-behaviour-differs"
-	sigResave     = "c14-resave-differs"
-	sigOneLine    = "c14-not-one-line-per-binding"
-	sigSkipped    = "c14-limit-not-skip-whole"
-	sigSaveExt    = "c14-save-extension-bytes-differ"
-	sigAutoSave   = "c14-autosave-bytes-differ"
-	c14ScanLimit  = 65536
-	c14BadEscapes = "\a\b\f\v"
+	sigFloatInt     = "save-float-integral-reloads-as-int"
+	sigNegZero      = "save-float-negzero-reloads-as-int-zero"
+	sigMinInt       = "save-int-min-reloads-as-float"
+	sigEscape       = "save-string-escape-not-read-back"
+	sigClosure      = "save-closure-loses-capture"
+	sigAlias        = "save-named-function-under-other-name"
+	sigPrinter      = "save-func-print-not-reparsed-same"
+	sigExt          = "save-extension-value-not-loadable"
+	sigQuoteNL      = "save-quote-multiline"
+	sigScanner      = "autoload-line-over-64KiB"
+	sigScannerLimit = "autoload-line-of-admitted-value-not-read"
+	sigNoLimit      = "save-named-function-ignores-max-len"
+	sigRebound      = "save-nonliteral-name-rebound"
+	sigUnexpl       = "c14-roundtrip-mismatch"
+	sigLost         = "c14-binding-lost"
+	sigBehaviour    = "c14-function-behaviour-differs"
+	sigResave       = "c14-resave-differs"
+	sigOneLine      = "c14-not-one-line-per-binding"
+	sigSkipped      = "c14-limit-not-skip-whole"
+	sigSaveExt      = "c14-save-extension-bytes-differ"
+	sigAutoSave     = "c14-autosave-bytes-differ"
+	c14ScanLimit    = 65536
+	c14BadEscapes   = "\a\b\f\v"
 )
 
 func c14Unescaped(s string) string { // what the lexer makes of strconv.Quote's \a \b \f \v
@@ -862,6 +884,8 @@ func c14Attribute(run *c14Run, t c14TR, fails []string) []c14Attr {
 			b := binds[name]
 			present, v1 := valsOf(p, name)
 			switch {
+			case !present && tag == "A" && afterLong(name) && sr.Lim > 0:
+				add(f, sigScannerLimit, tag) // every value in the file was admitted by the limit both sessions are configured with
 			case !present && tag == "A" && afterLong(name):
 				add(f, sigScanner, tag)
 			case !present && b.Own != "" && b.Own != name:
@@ -888,6 +912,8 @@ func c14Attribute(run *c14Run, t c14TR, fails []string) []c14Attr {
 			root := rootOf(expr)
 			b := binds[root]
 			switch {
+			case tag == "A" && afterLong(root) && !(b.Own != "" && b.Own != root) && sr.Lim > 0:
+				add(f, sigScannerLimit, tag)
 			case tag == "A" && afterLong(root) && !(b.Own != "" && b.Own != root):
 				add(f, sigScanner, tag)
 			case b.Own != "" && b.Own != root:
@@ -937,7 +963,7 @@ func c14Attribute(run *c14Run, t c14TR, fails []string) []c14Attr {
 	// saving again differs: attributed to a loss already established on that path that changes the file
 	for _, f := range idem {
 		tag := strings.TrimPrefix(f, "idem:")
-		changes := []string{sigNegZero, sigMinInt, sigAlias, sigScanner, sigExt, sigQuoteNL, sigEscape, sigRebound, sigPrinter}
+		changes := []string{sigNegZero, sigMinInt, sigAlias, sigScanner, sigScannerLimit, sigExt, sigQuoteNL, sigEscape, sigRebound, sigPrinter}
 		done := false
 		for _, s := range changes {
 			if pathSigs[tag][s] {
@@ -1043,8 +1069,6 @@ func c14AnyEscapeInFunc(sr *c14SaveRec) bool {
 
 // ---------------------------------------------------------------------------------- model comparison (diagnosis only)
 
-func c14BytesOf(l []int) string { return bytesOf(l) }
-
 func c14ModelJ(v c14Val) J {
 	switch v.T {
 	case "int", "float":
@@ -1123,10 +1147,10 @@ func c14ModelDiff(cs *c14Case, run *c14Run, baseNames map[string]bool) []string 
 		}
 		return r
 	}
-	model := func(ls [][]int) []string {
+	model := func(ls []c14Line) []string {
 		r := make([]string, len(ls))
 		for i, l := range ls {
-			r[i] = c14BytesOf(l)
+			r[i] = string(l)
 		}
 		return r
 	}
@@ -1278,18 +1302,13 @@ func c14Par() int {
 	return n
 }
 
-func checkC14(c *Ctx) {
-	c.Assume("the saving and the loading sessions run in separate child processes that call extensions.Init(&Config{HasLoad,HasSave}) themselves; function equivalence is sampled on 12 argument kinds per parameter position pattern, not proved")
-	c.Assume("the reader of printed forms in SaveLoad.tla (ParseVal) covers the literal grammar that Inspect produces; function bodies are opaque code identities in the model")
-	par := c14Par()
-
-	// 1. MC: the repaired design satisfies every property ...
+// c14ModelCheck: MC of SaveLoad.tla - the repaired design on the whole universe, and one run per deviation.
+func c14ModelCheck(c *Ctx) error {
 	allInv := []string{"OneLinePerBinding", "Sorted", "RoundTrip", "SaveIdempotent", "SkippedNotTruncated"}
-	allScopes := []string{"mc", "int", "float", "byte", "str", "scalar", "arr", "map", "pair", "name", "long", "limit", "func"}
+	allScopes := []string{"mc", "int", "float", "byte", "str", "scalar", "arr", "map", "pair", "name", "long", "limit", "func", "boundary"}
 	r, err := c.TLC(TLCOpt{Spec: "SaveLoad", Cfg: c14Cfg(nil, c14ScanLimit, allScopes, []int{0, 12, 40}, false, allInv, false), Workers: 6})
 	if err != nil {
-		c.Infra(err)
-		return
+		return err
 	}
 	c.Note("MC repaired design (Dev = {}) over the whole universe x limits {0,12,40}: %d states, %d transitions, all of %v hold", r.Distinct, r.Generated, allInv)
 	// ... and each actual rule of the code yields its design-level counterexample
@@ -1306,7 +1325,7 @@ func checkC14(c *Ctx) {
 			defer wg.Done()
 			sem <- struct{}{}
 			defer func() { <-sem }()
-			r, err := c.TLC(TLCOpt{Spec: "SaveLoad", Cfg: c14Cfg([]string{dev}, 40, []string{"mc"}, []int{0, 12}, false, []string{inv}, false), Workers: 2, AllowError: true, Heap: "2g"})
+			r, err := c.TLC(TLCOpt{Spec: "SaveLoad", Cfg: c14Cfg([]string{dev}, 40, []string{"mc", "boundary"}, []int{0, 12, 44}, false, []string{inv}, false), Workers: 2, AllowError: true, Heap: "2g"})
 			results[i] = devRes{dev: dev, want: inv, err: err}
 			if err == nil {
 				results[i].got = r.InvViolated
@@ -1317,16 +1336,28 @@ func checkC14(c *Ctx) {
 	cex := map[string]string{}
 	for _, dr := range results {
 		if dr.err != nil {
-			c.Infra(dr.err)
-			return
+			return dr.err
 		}
 		if dr.got != dr.want {
-			c.Infra(fmt.Errorf("deviation %s: expected TLC to violate %s, got %q (vacuous property or model)", dr.dev, dr.want, dr.got))
-			return
+			return fmt.Errorf("deviation %s: expected TLC to violate %s, got %q (vacuous property or model)", dr.dev, dr.want, dr.got)
 		}
 		cex[dr.dev] = dr.want
 	}
 	c.Cov("design_counterexamples", cex)
+	return nil
+}
+
+func checkC14(c *Ctx) {
+	c.Assume("the saving and the loading sessions run in separate child processes that call extensions.Init(&Config{HasLoad,HasSave}) themselves; function equivalence is sampled on 12 argument kinds per parameter position pattern, not proved")
+	c.Assume("the reader of printed forms in SaveLoad.tla (ParseVal) covers the literal grammar that Inspect produces; function bodies are opaque code identities in the model")
+	par := c14Par()
+
+	// 1. MC (runs beside the conformance part, joined before the verdicts): the repaired design satisfies every
+	//    property, and each actual rule of the code yields its design-level counterexample
+	mcDone := make(chan error, 1)
+	go func() { mcDone <- c14ModelCheck(c) }()
+	waitMC := sync.OnceValue(func() error { return <-mcDone })
+	defer func() { _ = waitMC() }() // never leave TLC running behind an early return
 
 	// 2. pinned reproducers: which of the named deviations does the tree under test still have? (they are run on
 	//    every check; the model that predicts the GEN cases is SaveLoad with exactly these deviations on)
@@ -1344,31 +1375,46 @@ func checkC14(c *Ctx) {
 	if len(codeDev) == len(c14CodeDev) {
 		inv = []string{"PrintOK"} // with every rule of the pinned code on, the model's printed form is GrolValues!Inspect
 	}
-	gen, err := c.TLC(TLCOpt{Spec: "SaveLoad", Cfg: c14Cfg(codeDev, c14ScanLimit, scopes, []int{0}, true, inv, false), Workers: 4})
-	if err != nil {
-		c.Infra(err)
-		return
-	}
-	cases, err := c14ReadCases(gen.Emitted)
-	if err != nil {
-		c.Infra(err)
-		return
-	}
 	limits := []int{1, 5, 12, 17, 40}
 	if c.Thorough() {
 		limits = []int{1, 2, 3, 4, 5, 9, 10, 11, 12, 13, 17, 18, 22, 23, 24, 25, 39, 40, 41, 42, 43, 44, 100}
 	}
-	genL, err := c.TLC(TLCOpt{Spec: "SaveLoad", Cfg: c14Cfg(codeDev, c14ScanLimit, []string{"limit"}, limits, true, nil, false), Workers: 4})
-	if err != nil {
-		c.Infra(err)
+	// the boundary family of the limit (SaveLoad!BoundaryCases): limits just below, at and above the line reader's
+	// default room (64 KiB), values at lim, lim-1, lim-k, lim-k-1, lim+1 for name lengths k = 1, 5, 20
+	blimits := []int{c14ScanLimit - 1, c14ScanLimit, 100000}
+	if c.Thorough() {
+		blimits = []int{30000, c14ScanLimit - 6, c14ScanLimit - 1, c14ScanLimit, c14ScanLimit + 1, 70000, 100000, 131072, 262144}
+	}
+	type genRes struct {
+		cases []*c14Case
+		err   error
+	}
+	genRun := func(out *genRes, scopes []string, limits []int, inv []string) {
+		r, err := c.TLC(TLCOpt{Spec: "SaveLoad", Cfg: c14Cfg(codeDev, c14ScanLimit, scopes, limits, true, inv, false), Workers: 4})
+		if err == nil {
+			out.cases, err = c14ReadCases(r.Emitted)
+		}
+		out.err = err
+	}
+	var gU, gL, gB genRes
+	var gwg sync.WaitGroup
+	gwg.Add(3)
+	go func() { defer gwg.Done(); genRun(&gU, scopes, []int{0}, inv) }()
+	go func() { defer gwg.Done(); genRun(&gL, []string{"limit"}, limits, nil) }()
+	go func() { defer gwg.Done(); genRun(&gB, []string{"boundary"}, blimits, nil) }()
+	gwg.Wait()
+	for _, g := range []*genRes{&gU, &gL, &gB} {
+		if g.err != nil {
+			c.Infra(g.err)
+			return
+		}
+	}
+	if len(gB.cases) != 15*len(blimits) {
+		c.Infra(fmt.Errorf("SaveLoad GEN emitted %d boundary cases for %d limits", len(gB.cases), len(blimits)))
 		return
 	}
-	lcases, err := c14ReadCases(genL.Emitted)
-	if err != nil {
-		c.Infra(err)
-		return
-	}
-	cases = append(cases, lcases...)
+	c.Cov("limit_boundary_cases", len(gB.cases))
+	cases := append(append(gU.cases, gL.cases...), gB.cases...)
 	if len(cases) < 700 {
 		c.Infra(fmt.Errorf("SaveLoad GEN emitted only %d cases", len(cases)))
 		return
@@ -1394,7 +1440,9 @@ func checkC14(c *Ctx) {
 		byKey[cs.key()] = cs
 		jobs = append(jobs, cs.job())
 	}
+	tPhase := time.Now()
 	runs, err := c14RunJobs(filepath.Join(c.Scratch(), "c14"), jobs, par)
+	c.Cov("wall_children_s", time.Since(tPhase).Seconds())
 	if err != nil {
 		c.Infra(err)
 		return
@@ -1438,7 +1486,13 @@ func checkC14(c *Ctx) {
 	}
 	cases = kept
 	c.Cov("generated_function_cases_dropped", dropped)
+	if err := waitMC(); err != nil {
+		c.Infra(err)
+		return
+	}
+	tPhase = time.Now()
 	verdicts, err := c14TLCVerdicts(c, recs, c.Pick(4, 10))
+	c.Cov("wall_trace_tlc_s", time.Since(tPhase).Seconds())
 	if err != nil {
 		c.Infra(err)
 		return
